@@ -195,6 +195,16 @@ pub fn gen_asmfuzz(w: &mut impl Write, thorough: bool, seed: u64) {
     for reg in ["r", "r-1", "r+1", "r0x10", "r00000000000000000000000000000000000000001", "r99999999999999999999999999", "r9223372036854775807", "r9223372036854775808", "R1", "r１"] {
         for t in ["mov {}, 1", "mov r1, {}", "ldxw r1, [{}+4]", "stxw [{}], r1", "jeq {}, 1, +1", "neg {}", "{}", "exit\n{}"] { emit(w, &t.replace("{}", reg)); } }
     for tr in ["mov", "mov ", "mov r1", "mov r1,", "mov r1, ", "ldxw r1, [", "ldxw r1, [r2", "ldxw r1, [r2+", "ldxw r1, [r2+4", "stw [r1+2],", "jeq r1, 2,", "jeq r1,", ",", ",,", "[", "]", "[]", "[r1]", "exit,", "exit ,", "exit r1", "exit 1"] { emit(w, tr); }
+    // long identifiers (unknown mnemonics, register-like names) with a multi-byte alphanumeric character at every byte position up to 72:
+    // error paths that slice or measure the name in bytes must not split a character
+    for k in 0..=72usize { for ch in ["é", "中", "𝐀", "٣"] { for tail in ["", "zz", "é"] {
+        let id = format!("{}{}{}", "a".repeat(k), ch, tail);
+        emit(w, &id);
+        if thorough || k % 4 == 0 || (28..=36).contains(&k) || (60..=68).contains(&k) {
+            emit(w, &format!("{} r1, 2", id)); emit(w, &format!("mov r1, 2\n{}", id)); emit(w, &format!("mov{} r1, 2", id)); emit(w, &format!("r{}", id));
+            emit(w, &format!("mov r1, {}", id)); emit(w, &format!("ldxw r1, [{}+4]", id));
+        }
+    } } }
     // arbitrary characters, including non-ASCII whitespace / alphanumerics
     let alphabet: Vec<char> = "abcdefrxjmov0123456789 ,+-[]\n\t_.;:#é\u{a0}\u{2003}\u{3000}\u{85}\u{b}\u{c}Ω٣½ß\u{0}\u{7f}!\"'()*/<=>?@\\^`{|}~".chars().collect();
     for _ in 0..(if thorough { 600_000 } else { 40_000 }) {
